@@ -5,6 +5,17 @@ mod verif_c10_entry {
     use super::verif_entry_common::*;
     use super::*;
 
+    struct NH(u8);
+    impl crate::Compound for NH {
+        fn load(_: crate::AnyCache, _: &SharedString) -> Result<Self, crate::BoxedError> { Err("never".into()) }
+        const HOT_RELOADED: bool = false;
+    }
+    mod u8x {
+        pub struct A;
+        impl crate::Asset for A { type Loader = crate::loader::LoadFrom<crate::SharedBytes, crate::loader::BytesLoader>; }
+        impl From<crate::SharedBytes> for A { fn from(_: crate::SharedBytes) -> A { A } }
+    }
+
     // @h name=c10_entry_kind tier=quick
     #[kani::proof]
     #[kani::unwind(4)]
@@ -25,9 +36,16 @@ mod verif_c10_entry {
         assert!(e3.inner().inner.dynamic.is_none());
         let h3: &Handle<u64> = e3.inner().downcast_ref().unwrap();
         assert_eq!(*h3.get(), v);
+        // wrappers inherit the opt-out of what they wrap
+        assert!(!<std::sync::Arc<NH> as Storable>::HOT_RELOADED && <std::sync::Arc<Dy<u8>> as Storable>::HOT_RELOADED);
+        assert!(!<crate::OnceInitCell<NH, u8> as Storable>::HOT_RELOADED && <crate::OnceInitCell<Dy<u8>, u8> as Storable>::HOT_RELOADED);
+        assert!(!<crate::OnceInitCell<Option<NH>, u8> as Storable>::HOT_RELOADED);
+        assert!(<crate::Directory<u8x::A> as Storable>::HOT_RELOADED);
+        let e4 = CacheEntry::new(std::sync::Arc::new(NH(1)), sid("k"), || true);
+        assert!(e4.inner().inner.dynamic.is_none(), "Arc<T> of a type that opts out of hot-reloading is rewritable");
         kani::cover!(mutable);
         kani::cover!(!mutable);
-        std::mem::forget((e1, e2, e3));
+        std::mem::forget((e1, e2, e3, e4));
     }
 
     // `write` on a static entry must not change it: it panics before touching anything.
